@@ -281,6 +281,7 @@ func InnermostRepoFrame(stack string) string {
 		if strings.HasPrefix(line, modPrefix) {
 			fn := strings.TrimPrefix(line, modPrefix)
 			fn = strings.TrimPrefix(fn, "/")
+			fn = strings.TrimPrefix(fn, ".")
 			if i := strings.LastIndex(fn, "("); i > 0 && strings.HasSuffix(fn, ")") {
 				// strip argument list "(0x..., ...)" but keep receiver "(*T)"
 				if strings.Contains(fn[i:], "0x") || fn[i:] == "()" || strings.Contains(fn[i:], "...") || strings.Contains(fn[i:], "{") {
